@@ -288,6 +288,7 @@ def strip(spec):
             fs["coerce"] = False
             fs["default"] = None
             fs.pop("parser", None)
+            fs.pop("col_drop", None)
     for fs in s.get("index") or []:
         fs["coerce"] = False
     if s.get("index_coerce"):
